@@ -9,6 +9,8 @@ ASSUMPTIONS = [
     "boxes of other connections / the other direction sealed under the same user key are outside the TCP prefix theorem's [sealed] set (they are inside C04_tcp_authentic's); the driver splices them in and checks the outcome",
     "an application payload that parses as metadata (premise payload_not_meta of the UDP theorem) is excluded; the metadata layout and the low entropy codec are functions with the stated premises, the run executes the concrete meta_parse_c and LowEntropy.decode on real bytes",
     "the model's AEAD in the correspondence run is the table of the real boxes of the recorded traffic (opened with the real key by the independent reference codec)",
+    "C04_tcp_cross_connection_splice_refused has the premise that the session ids of the other connection differ from the receiving session's id; the code relies on ids drawn at random per dial (32 bit). Unpredictability of that source is not provable here; what is checked on every run is the necessary condition that ids are not a function of the creation second: client muxes of one user created in the same virtual second must draw different ids (driver oracle, sig session-id-repeats-across-muxes), and whole downstream streams / datagram sequences of such a sibling connection are spliced into the other client end to end",
+    "the UDP session-layer model (u_step: recvBuf keyed by seq, release only at nextRecv, close ends the session, acks do not touch the receive side) takes every sequenced segment - data AND open request / response - through the same buffer, as inputData does; receive-window drops are arrivals that are absent from the event list",
     "the driver runs under Go's faketime runtime",
 ]
 
@@ -22,7 +24,7 @@ def search(ctx):
 
 
 MANIFEST = dict(
-    text="Machine-checked theorems over the executable TCP receiver model of C01 and a UDP datagram parser model: for every sent segment list and every received byte string after the sender's nonce the delivered segments are a prefix of the sent ones up to padding contents, nothing is delivered after the first failure, every delivered segment is authentic for any received stream; every datagram is discarded or has the metadata of a sealed datagram with the same nonce and exactly the length the size equations dictate; low entropy bodies are decoded before open with the tag untouched; padding contents never matter; a box sealed by the receiver's own side (reflection: shared key and session id) is never handed to its application on either transport (direction filter of Session.input in the delivery step); a UDP session releases segments only in sequence order without gaps, also when a close arrives. Two parts of the property are refuted on the faithful model with witnesses that reproduce on the code (nonce header rewrite skips leading TCP segments; a UDP payload box can be replaced by the datagram's metadata box). The extracted receivers run on mutated real traffic (every field class x mutation kind; every byte offset in the thorough tier) against the real readOneSegment receivers, and mutated end-to-end runs of real Mux pairs are judged against the property text.",
+    text="Machine-checked theorems over the executable TCP receiver model of C01 and a UDP datagram parser model: for every sent segment list and every received byte string after the sender's nonce the delivered segments are a prefix of the sent ones up to padding contents, nothing is delivered after the first failure, every delivered segment is authentic for any received stream; every datagram is discarded or has the metadata of a sealed datagram with the same nonce and exactly the length the size equations dictate; low entropy bodies are decoded before open with the tag untouched; padding contents never matter; a box sealed by the receiver's own side (reflection: shared key and session id) is never handed to its application on either transport (direction filter of Session.input in the delivery step); a UDP session releases segments only in sequence order without gaps, also when a close arrives; a second copy of any authentic datagram (data, open request/response, close, ack) at any later point changes neither nextRecv nor the released bytes; another connection's stream (whole or from any segment boundary) hands nothing to a session with a different id. Two parts of the property are refuted on the faithful model with witnesses that reproduce on the code (nonce header rewrite skips leading TCP segments; a UDP payload box can be replaced by the datagram's metadata box). The extracted receivers run on mutated real traffic (every field class x mutation kind; every byte offset in the thorough tier) against the real readOneSegment receivers, and mutated end-to-end runs of real Mux pairs are judged against the property text.",
     note="INT-CTXT, counter-nonce non-wrap and per-datagram fresh nonces are premises; the AEAD of the run is the table of the recorded real boxes; runs use Go's faketime runtime.",
     technique="Coq proof (induction over the incremental stream parser with the sender's box sequence as invariant; case analysis of the datagram size equations) + differential run of the extracted receivers against pkg/protocol's receivers on mutated recorded traffic + end-to-end man-in-the-middle runs on a simulated network",
 )
